@@ -343,6 +343,16 @@ class C17(Prop):
             if not model.eq_set(dump_to_jv(lib, dup), to, True):
                 raise Violation("the library applying its own patch yields %s: %s" % (model.emit_text(dump_to_jv(lib, dup))[:200], ctx), key="lib-result")
             sound_and_usable(lib, dup, "patched copy")
+            # ... and to 'from' as it was BEFORE the generator sorted it (a fresh build in the original member order): the patch
+            # addresses members by name, so the order they stand in cannot matter
+            fresh = printing.build_tree(lib, frm)
+            try:
+                status = lib.cJSONUtils_ApplyPatchesCaseSensitive(fresh, patch)
+                if status != 0 or not model.eq_set(dump_to_jv(lib, fresh), to, True):
+                    raise Violation("the library applying its own patch to 'from' in its original member order (status %d) yields %s: %s" % (
+                        status, model.emit_text(dump_to_jv(lib, fresh))[:200], ctx), key="lib-result")
+            finally:
+                lib.cJSON_Delete(fresh)
             # a document against ITSELF (the same object as both arguments): equal, so the patch is empty, and it is still intact
             selfp = lib.cJSONUtils_GeneratePatchesCaseSensitive(pt, pt)
             try:
